@@ -212,6 +212,14 @@ func c04Go(c *vc.Ctx, ws *synt.Workspace, t c04Case) *c04Work {
 	}
 	r0 := oracle.RunInterpFile(f0, opts)
 	r1 := oracle.RunInterpFile(f, opts)
+	if r0.Panicked || r0.Fatal != "" {
+		// the interpreter itself fails on the original program: nothing to compare
+		c.Count("skipped_interpreter_fails_on_original", 1)
+		if os.Getenv("C04_SNIP") != "" {
+			fmt.Println(r0.Fatal)
+		}
+		r1 = r0
+	}
 	c.Count("interp_pairs_compared", 1)
 	if os.Getenv("C04_SNIP") != "" {
 		fmt.Printf("[%s] simplified: %q\n  interp orig: %d %q %s\n  interp simp: %d %q %s\n", t.Variant, c04Body(w.p1[0]), r0.Status, r0.Stdout, r0.Fatal, r1.Status, r1.Stdout, r1.Fatal)
